@@ -10,7 +10,7 @@ brute-force search over the sample times in exact SI arithmetic.
 import math
 from fractions import Fraction
 import numpy as np
-from common import frac, rstr, rparse, close
+from common import frac, rstr, rparse, close, fstr
 import common
 from props.c06 import PREFIX, TIME, QTY, SPACE, si_time, si_qty
 
@@ -399,8 +399,8 @@ def check_trajectory(ctx, c, qs, ans):
         else:
             okv = len(vals) == len(exp) and all(float(v) == float(e) for v, e in zip(vals, exp))
         if not okv:
-            ctx.violation("value:%s" % kindkey, "%s returns %s, direct indexing of the data gives %s" % (q["q"], vals[:8], [float(e) for e in exp][:8]),
-                          case, impl=vals, expected=[float(e) for e in exp])
+            ctx.violation("value:%s" % kindkey, "%s returns %s, direct indexing of the data gives %s" % (q["q"], vals[:8], [fstr(e) for e in exp][:8]),
+                          case, impl=vals, expected=[fstr(e) for e in exp])
         if not (units == dunits) or str(units) != str(dunits):
             ctx.violation("units:%s" % kindkey, "%s returns units %s, the data's units are %s" % (q["q"], units, dunits), case,
                           impl=str(units), expected=str(dunits))
@@ -459,6 +459,9 @@ def simulated_cases(ctx, rng, n):
             ts = [Fraction(k, 4) for k in range(N)]
         traj = simulate(system, t_sample=[float(t) for t in ts], engine=eng, time_step=1 / 64)
         data = [float(v) for v in np.asarray(traj.data.value).ravel()]
+        if not all(math.isfinite(v) for v in data):
+            ctx.count("simulated_nonfinite_skipped")      # not this property's business; frac() refuses nan / inf
+            continue
         rts = [frac(float(v)) for v in np.asarray(traj.t.value).ravel()]
         du, tu = traj.data.units, traj.t.units
         c = dict(kind=kind, shape=shape, nc=nc, ns=ns, N=len(rts), system=traj.system, data=data, ts=rts, dup=False,
@@ -478,9 +481,9 @@ def simulated_cases(ctx, rng, n):
 
 def run(ctx):
     rng = ctx.rng
-    ctx.notes.append("closest / supeq full statements (ties and 'first sample not before' by index) hold for strictly increasing times "
-                     "(closest_spec_strict, supeq_spec_strict); for repeated sample times only the time-wise forms are proved "
-                     "(closest_spec_partial, supeq_spec_partial) and the code returns a later sample of equal time: listed known finding")
+    ctx.notes.append("closest_spec / infeq_spec / supeq_spec are the full statements for every non-decreasing time list, repeated sample "
+                     "times included (index form: ties to the earlier index, first sample not before t), on the lookup code as fixed by "
+                     "repository commit 93c716e (walk-back `_first_sample_with_same_time` modelled by `firstSame`)")
     ctx.notes.append("documentation/indexing.rst line 40 gives the data index as sample_index * n_samples*n_species*space_size + ...: the extra "
                      "factor n_samples is a documentation error (the code, the theorems and the oracle use sample*nspecies*ncells + "
                      "species*ncells + cell); recorded only")
